@@ -491,6 +491,19 @@ func runC13(c *mon.Ctx) {
 					}
 					return true
 				},
+				// two lines for the same key ID that disagree on the signature: one set of headers, one verdict - and no
+				// reading of it makes the request well-formed
+				"header-same-key-on-two-lines": func(w *wireReq) bool {
+					x := xm
+					x.sig = strings.Repeat("A", 86)
+					if tr.Chance(0.5) {
+						w.delHeader("Authorization")
+						w.headers = append(w.headers, [2]string{"Authorization", x.String()}, [2]string{"Authorization", xm.String()})
+					} else {
+						w.headers = append(w.headers, [2]string{"Authorization", x.String()})
+					}
+					return true
+				},
 				"header-conflicting-origins": func(w *wireReq) bool {
 					x := xm
 					x.origin = other
